@@ -15,7 +15,7 @@ theorem RT_eta (x : Mesh) : RT x = { x with lists := (RT x).lists } := rfl
 
 theorem assemble_lists (m : Mesh) :
     (assemble m).lists = (liveOps m).foldl (addOp (slavePatches m)) m.lists := by
-  simp only [assemble, assembleLoop_eq_foldl]; rfl
+  simp only [assemble_flat, assembleLoop_eq_foldl]; rfl
 
 theorem assemble_of_not_assembled (m : Mesh) (h : isAssembled (assemble m) = false) : assemble m = m := by
   have hl : liveOps m = [] := by
